@@ -21,6 +21,27 @@ def sc_obj(v):
     return SecurityControlField.from_bytes(bytes([v]))
 
 
+def sc_for(d):
+    """the security-control object of a case. With `scprev`: an object that was parsed from another byte and used (serialised,
+    handed to encrypt) before, then given the case's field values one by one - what counts is what it says when it is used."""
+    if d.get("scprev") is None:
+        return sc_obj(d["sc"])
+    from dlms_cosem import security
+    s = sc_obj(d["scprev"])
+    s.to_bytes()
+    try:
+        klen = 32 if s.security_suite == 2 else 16
+        security.encrypt(s, b"PREVIOUS", 1, bytes(klen), b"\x01\x02", bytes(klen))
+    except fw._Timeout:
+        raise
+    except Exception:  # noqa
+        pass
+    t = sc_obj(d["sc"])
+    for n in ("security_suite", "authenticated", "encrypted", "broadcast_key", "compressed"):
+        setattr(s, n, getattr(t, n))
+    return s
+
+
 def run(d):
     from dlms_cosem import security
     k = d["k"]
@@ -99,7 +120,7 @@ def run(d):
             return outs[0] + " !PROP second-call-differs:" + outs[1]
         return outs[0]
     try:
-        s = sc_obj(d["sc"])
+        s = sc_for(d)
         if k == "enc":
             r = security.encrypt(s, b("title"), d["ic"], b("key"), b("x"), b("ak"))
         elif k == "dec":
@@ -238,6 +259,30 @@ class C05(fw.Prop):
                 yield mk(dict(k="enc", x="c001c100", tag="title-spelled", **{**p, "title": hx(spelled)}))
                 yield mk(dict(k="gmac", x=hx(rb(16)), tag="title-spelled", **{**params(scb=0x10), "title": hx(spelled)}))
                 yield mk(dict(k="tamper", x=hx(ct), tag="title-spelled", **{**p, "title": hx(spelled)}))
+        # a security-control object that was used under other settings before (what it says now is what counts)
+        for v in (range(256) if deep else [0x10, 0x20, 0x30, 0x31, 0x32, 0x70, 0xB0, 0xF0, 0x50, 0x90, 0x00, 0x12, 0x21, 0xF2, 0x60, 0xE1]):
+            if v % 16 > 2:
+                continue
+            prev = v ^ (1 << rng.choice([4, 5, 6, 7]))
+            p = params(suite=v % 16, scb=v)
+            pt = rb(rng.randint(0, 40))
+            ct = ref_gcm(bytes.fromhex(p["key"]), bytes.fromhex(p["title"]) + p["ic"].to_bytes(4, "big"), sc_obj(v).to_bytes() + bytes.fromhex(p["ak"]), pt)
+            yield mk(dict(k="enc", x=hx(pt), tag="reused-sc", scprev=prev, **p))
+            yield mk(dict(k="dec", x=hx(ct), tag="reused-sc", scprev=prev, **p))
+            yield mk(dict(k="gmac", x=hx(rb(16)), tag="reused-sc", scprev=prev, **p))
+        # both keys of the wrong length at once (lengths that add up to the right total, and others)
+        for suite in (0, 1, 2):
+            klen = 32 if suite == 2 else 16
+            for n1 in (range(0, 2 * klen + 17) if deep else [0, 8, klen - 1, klen + 1, 24, 2 * klen, 2 * klen + 16, 48]):
+                if n1 == klen:
+                    continue
+                for n2 in {2 * klen - n1, rng.randint(0, 48)}:
+                    if n2 < 0:
+                        continue
+                    p = {**params(suite=suite), "key": hx(rb(n1)), "ak": hx(rb(n2))}
+                    yield mk(dict(k="enc", x="0102", tag="key-length-pairs", **p))
+                    yield mk(dict(k="dec", x=hx(rb(30)), tag="key-length-pairs", **p))
+                    yield mk(dict(k="gmac", x=hx(rb(16)), tag="key-length-pairs", **{**p, "sc": 0x10 + suite}))
         # the system title handed over as a bytearray
         for n in (0, 1, 16, 33, 100):
             p = params()
